@@ -176,7 +176,7 @@ func graphWritersRule(r *Report, p *Prog, e *Effect, rule string, roots []*ssa.F
 func checkC06(r *Report) {
 	p := loadResolve("", true)
 	pathTrusted(r)
-	r.Explain = "Path rules on the SSA control-flow graph of the npm resolver. C06.a LOOP-ACCOUNT: in the loop that asks the client for matching versions of each requirement, every path through one iteration ends in (*Graph).AddEdge, (*Graph).AddError or a return, so each non-dev, non-peer requirement becomes an edge, a node error, or aborts the resolution. C06.b PAIR: each (*Graph).AddNode in that loop is followed on every continuing path by an AddEdge whose target is the id just created; C06.c GRAPH-WRITERS: nothing reachable from Resolve writes Graph.Nodes/Edges except Graph's own append-only Add* methods; with the root as base case every node is reachable from the root by induction on insertion order. C06.d KNOWN-EMPTY-KEY (deny-list): no slot/alias table of the npm resolver is looked up with a variable on a branch where that variable is known to be the empty string (such a lookup can never hit, so a reservation that protects Node's walk-up lookup would be silently ignored). C06.g SLOT-FREE: a freshly installed node is written into a level's children/alias table only where that level was tested to hold no package of that name: the level is the variable of the climbing loop, and each value that flows into it (the dependent's own level at loop entry, the parent at each step) is the argument of a candidate(level, name, alias) call whose non-nil outcome leaves the path, so no directory ends up with two packages of one name. C06.f CLIMB-RESERVES: in the two loops of Resolve that walk up the install tree (p = p.parent), the slot reserved against shadowing (protected / aliasProtected) is that of the level being left, i.e. the map updated belongs to the loop variable itself and not to its parent; otherwise the dependent's own level stays unreserved and a later install can shadow the version its edge points to. C06.e DEV-INERT: in regularImports (the filter that decides which requirements of a version enter that loop) a dev requirement is never emitted, so it must not influence what is emitted either: every write to the filter's suppression tables and every append to its result happens on the not-dev side of a HasAttr(dep.Dev) test of the same iteration; otherwise a dev entry could suppress a regular requirement that then gets neither an edge nor an error. Not decided: that the edge target satisfies the requirement, version choice, and the hoisting/shadowing logic as a whole."
+	r.Explain = "Path rules on the SSA control-flow graph of the npm resolver. C06.a LOOP-ACCOUNT: in the loop that asks the client for matching versions of each requirement, every path through one iteration ends in (*Graph).AddEdge, (*Graph).AddError or a return, so each non-dev, non-peer requirement becomes an edge, a node error, or aborts the resolution. C06.b PAIR: each (*Graph).AddNode in that loop is followed on every continuing path by an AddEdge whose target is the id just created; C06.c GRAPH-WRITERS: nothing reachable from Resolve writes Graph.Nodes/Edges except Graph's own append-only Add* methods; with the root as base case every node is reachable from the root by induction on insertion order. C06.d KNOWN-EMPTY-KEY (deny-list): no slot/alias table of the npm resolver is looked up with a variable on a branch where that variable is known to be the empty string (such a lookup can never hit, so a reservation that protects Node's walk-up lookup would be silently ignored). C06.g SLOT-FREE: a freshly installed node is written into a level's children/alias table only where that level was tested to hold no package of that name: the level is the variable of the climbing loop, and each value that flows into it (the dependent's own level at loop entry, the parent at each step) is the argument of a candidate(level, name, alias) call whose non-nil outcome leaves the path, so no directory ends up with two packages of one name. C06.f CLIMB-RESERVES: in the two loops of Resolve that walk up the install tree (p = p.parent), the slot reserved against shadowing (protected / aliasProtected) is that of the level being left, i.e. the map updated belongs to the loop variable itself and not to its parent; otherwise the dependent's own level stays unreserved and a later install can shadow the version its edge points to. C06.e DEV-INERT: in regularImports (the filter that decides which requirements of a version enter that loop) dev requirements and peer-scoped requirements are never emitted, so they must not influence what is emitted either: every write to the filter's suppression tables and every append to its result happens on the not-dev side of a HasAttr(dep.Dev) test and on the not-peer side of a scope test of the same iteration; otherwise a dev entry could suppress a regular requirement that then gets neither an edge nor an error. Not decided: that the edge target satisfies the requirement, version choice, and the hoisting/shadowing logic as a whole."
 	fn := p.lookupFn("(*resolve/npm.resolver).Resolve")
 	if fn == nil {
 		r.bad("C06.a/LOOP-ACCOUNT", "npm Resolve", "", "function (*resolve/npm.resolver).Resolve not found")
@@ -202,7 +202,7 @@ func checkC06(r *Report) {
 func checkC07(r *Report) {
 	p := loadResolve("", true)
 	pathTrusted(r)
-	r.Explain = "Path rules on the SSA control-flow graph of the Maven resolver's traversal. C07.a LOOP-ACCOUNT on the loop over a version's imports that calls findMatch: every path of an iteration ends in AddEdge, AddError or return, except two documented skips attached to the true edge of their guard: the artifact is excluded on this path (isExcluded) and scope == \"provided\" in multi-registry mode. C07.b PAIR: the AddNode in the loop is followed by an AddEdge to that node. C07.c GRAPH-WRITERS as for npm. C07.d RETRY-BOUND: the retry loop on incompatible requirements compares a counter that is incremented once per iteration with the constant maxRetries. C07.e NODE-REGISTERED: every table that records the id of a node added in the loop on some path records it on every continuing path, so the de-duplication tables that enforce one version per artifact stay in step with the graph. C07.f INHERITED-SET: the exclusion set stored in a traversal node is shared by reference with the nodes that inherit it and is therefore never written in place (a new node's set is built in the dependency's own freshly parsed map). C07.g INCOMPATIBLE-FIRST: inside the loop every AddEdge/AddNode for the match is behind the test 'this artifact is already resolved' (which raises the incompatible-requirements retry), except the edge to an exactly known artifact+version. C07.h EXCLUDED-INERT: every table update and graph write of the loop lies on the not-excluded side of the isExcluded test, so an excluded declaration leaves no requirement, node or edge behind. Not decided: nearest-wins, range satisfaction, management override."
+	r.Explain = "Path rules on the SSA control-flow graph of the Maven resolver's traversal. C07.a LOOP-ACCOUNT on the loop over a version's imports that calls findMatch: every path of an iteration ends in AddEdge, AddError or return, except two documented skips attached to the true edge of their guard: the artifact is excluded on this path (isExcluded) and scope == \"provided\" in multi-registry mode. C07.b PAIR: the AddNode in the loop is followed by an AddEdge to that node. C07.c GRAPH-WRITERS as for npm. C07.d RETRY-BOUND: the retry loop on incompatible requirements compares a counter that is incremented once per iteration with the constant maxRetries. C07.e NODE-REGISTERED: every table that records the id of a node added in the loop on some path records it on every continuing path, so the de-duplication tables that enforce one version per artifact stay in step with the graph. C07.f INHERITED-SET: the exclusion set stored in a traversal node is shared by reference with the nodes that inherit it and is therefore never written in place (a new node's set is built in the dependency's own freshly parsed map). C07.g INCOMPATIBLE-FIRST: inside the loop every AddEdge/AddNode for the match is behind the test 'this artifact is already resolved' (which raises the incompatible-requirements retry), except the edge to an exactly known artifact+version. C07.i RESOLVED-WITH-EDGE: every iteration that attaches the match to the graph leaves the declared artifact (the resolver's key: group:artifact with classifier and type) marked as resolved - the edge goes to an exactly known artifact+version, or the iteration sets the resolved mark before it ends - so a later declaration of that artifact in another version raises the incompatible-requirements retry instead of adding a second version. C07.h EXCLUDED-INERT: every table update and graph write of the loop lies on the not-excluded side of the isExcluded test, so an excluded declaration leaves no requirement, node or edge behind. Not decided: nearest-wins, range satisfaction, management override."
 	fn := p.lookupFn("(*resolve/maven.resolver).resolve")
 	if fn == nil {
 		r.bad("C07.a/LOOP-ACCOUNT", "maven resolve", "", "function (*resolve/maven.resolver).resolve not found")
@@ -251,6 +251,89 @@ func checkC07(r *Report) {
 	inheritedSetRule(r, p, e, "C07.f/INHERITED-SET")
 	incompatibleFirstRule(r, p, "C07.g/INCOMPATIBLE-FIRST", fn, l)
 	skippedInertRule(r, p, "C07.h/EXCLUDED-INERT", fn, l, exempt[0].match, "excluded")
+	resolvedWithEdgeRule(r, p, "C07.i/RESOLVED-WITH-EDGE", fn, l)
+}
+
+// resolvedWithEdgeRule: whenever an iteration of the dependency loop attaches
+// the match to the graph (AddEdge), the artifact it was declared as (the
+// resolver's own key: group:artifact with classifier and type) is from then on
+// known as resolved: either the edge goes to an exactly known artifact+version
+// (a hit in the table keyed by the resolver's key), or the iteration marks the
+// artifact in the resolved set before it ends. Otherwise a later declaration
+// of that artifact in another version is not recognised as incompatible and a
+// second version of the artifact enters the graph.
+func resolvedWithEdgeRule(r *Report, p *Prog, rule string, fn *ssa.Function, l *loop) {
+	isResolvedSetUpdate := func(in ssa.Instruction) bool {
+		mu, ok := in.(*ssa.MapUpdate)
+		if !ok {
+			return false
+		}
+		mt, ok := mu.Map.Type().Underlying().(*types.Map)
+		if !ok {
+			return false
+		}
+		if _, ok := mt.Key().Underlying().(*types.Struct); !ok {
+			return false
+		}
+		b, ok := mt.Elem().Underlying().(*types.Basic)
+		if !ok || b.Kind() != types.Bool {
+			return false
+		}
+		c, ok := mu.Value.(*ssa.Const)
+		return ok && c.Value != nil && c.Value.Kind() == constant.Bool && constant.BoolVal(c.Value)
+	}
+	knownHit := func(b *ssa.BasicBlock) bool {
+		for d := range l.body {
+			ifi, ok := d.Instrs[len(d.Instrs)-1].(*ssa.If)
+			if !ok {
+				continue
+			}
+			hit := condDerives(ifi.Cond, 0, func(v ssa.Value) bool {
+				ex, ok := v.(*ssa.Extract)
+				if !ok {
+					return false
+				}
+				lk, ok := ex.Tuple.(*ssa.Lookup)
+				if !ok {
+					return false
+				}
+				mt, ok := lk.X.Type().Underlying().(*types.Map)
+				if !ok {
+					return false
+				}
+				nk, ok := mt.Key().(*types.Named)
+				return ok && nk.Obj().Pkg() == fn.Pkg.Pkg && strings.HasSuffix(mt.Elem().String(), "deps.dev/util/resolve.NodeID")
+			})
+			if hit && d.Succs[0].Dominates(b) && len(d.Succs[0].Preds) == 1 {
+				return true
+			}
+		}
+		return false
+	}
+	n := 0
+	for _, b := range fn.Blocks {
+		if !l.body[b] {
+			continue
+		}
+		for i, in := range b.Instrs {
+			if staticCalleeName(in) != "(*resolve.Graph).AddEdge" {
+				continue
+			}
+			n++
+			key := fmt.Sprintf("%s: AddEdge #%d leaves the artifact marked resolved", fnKey(fn), n)
+			if knownHit(b) {
+				r.ok(rule, key, p.pos(in.Pos()), "the edge goes to an exactly known artifact+version (registered together with the resolved mark when its node was added)")
+				continue
+			}
+			path := mustPassFrom(b, i, map[*ssa.BasicBlock]bool{l.header: true}, isResolvedSetUpdate, true)
+			if path != nil {
+				r.bad(rule, key, p.pos(in.Pos()), "an iteration attaches the match to the graph and ends without marking the declared artifact (group:artifact with classifier and type) as resolved: a later declaration of the same artifact in another version is not seen as incompatible, and the graph ends up with two versions of it", pathPositions(p, path)...)
+			} else {
+				r.ok(rule, key, p.pos(in.Pos()), "every path to the end of the iteration marks the artifact in the resolved set")
+			}
+		}
+	}
+	r.floor(rule, "AddEdge calls in the dependency loop", n, 3)
 }
 
 // skippedInertRule: a declaration that the loop skips (here: excluded on this
@@ -590,17 +673,71 @@ func devInertRule(r *Report, p *Prog, rule string) {
 		}
 		guards = append(guards, guard{b, bad})
 	}
+	// the other class the filter never emits: peer-scoped entries (scope == "peer")
+	var peerGuards []guard
+	var scopeValues []ssa.Value
+	for _, b := range fn.Blocks {
+		ifi, ok := b.Instrs[len(b.Instrs)-1].(*ssa.If)
+		if !ok {
+			continue
+		}
+		bo, ok := ifi.Cond.(*ssa.BinOp)
+		if !ok || (bo.Op != token.EQL && bo.Op != token.NEQ) {
+			continue
+		}
+		var other ssa.Value
+		if isConstString(bo.Y, "peer") {
+			other = bo.X
+		} else if isConstString(bo.X, "peer") {
+			other = bo.Y
+		} else {
+			continue
+		}
+		fromScope := condDerives(other, 0, func(v ssa.Value) bool {
+			call, ok := v.(*ssa.Call)
+			return ok && strings.HasSuffix(staticCalleeName(call), "dep.Type).GetAttr")
+		})
+		if !fromScope {
+			continue
+		}
+		bad := b.Succs[0]
+		if bo.Op == token.NEQ {
+			bad = b.Succs[1]
+		}
+		peerGuards = append(peerGuards, guard{b, bad})
+		scopeValues = append(scopeValues, other)
+	}
 	n := 0
 	check := func(in ssa.Instruction, what string) {
 		n++
 		key := fnKey(fn) + ": " + what
+		okDev, okPeer := "", ""
 		for _, g := range guards {
 			if guardedBy(g.b, g.bad, in.Block()) {
-				r.ok(rule, key, p.pos(in.Pos()), "on the not-dev side of the HasAttr(dep.Dev) test at "+blockPos(p, g.b))
-				return
+				okDev = blockPos(p, g.b)
 			}
 		}
-		r.bad(rule, key, p.pos(in.Pos()), "reached by a dev requirement: a dev entry is never emitted by this filter, so letting it write the filter's tables or result lets it suppress a regular requirement that then has neither an edge nor an error")
+		for _, g := range peerGuards {
+			if guardedBy(g.b, g.bad, in.Block()) {
+				okPeer = blockPos(p, g.b)
+			}
+		}
+		if okPeer == "" {
+			// the scope may have been established by another case of the same switch
+			for _, sv := range scopeValues {
+				if knownNot(fn, sv, "peer")[in.Block()] {
+					okPeer = "the scope tests on " + sv.Name()
+				}
+			}
+		}
+		switch {
+		case okDev != "" && okPeer != "":
+			r.ok(rule, key, p.pos(in.Pos()), "on the not-dev side of the HasAttr(dep.Dev) test at "+okDev+" and on the not-peer side of the scope test at "+okPeer)
+		case okDev == "":
+			r.bad(rule, key, p.pos(in.Pos()), "reached by a dev requirement: a dev entry is never emitted by this filter, so letting it write the filter's tables or result lets it suppress a regular requirement that then has neither an edge nor an error")
+		default:
+			r.bad(rule, key, p.pos(in.Pos()), "reached by a peer-scoped requirement: a peer entry is never emitted by this filter, so letting it write the filter's tables or result lets it (for instance an optional peer) suppress a regular requirement that then has neither an edge nor an error")
+		}
 	}
 	seen := map[string]int{}
 	for _, b := range fn.Blocks {
@@ -629,6 +766,7 @@ func devInertRule(r *Report, p *Prog, rule string) {
 		}
 	}
 	r.floor(rule, "HasAttr(dep.Dev) tests in regularImports", len(guards), 2)
+	r.floor(rule, "scope == \"peer\" tests in regularImports", len(peerGuards), 1)
 	r.floor(rule, "table writes and result appends in regularImports", n, 3)
 }
 
@@ -795,4 +933,83 @@ func slotFreeRule(r *Report, p *Prog, rule string, fn *ssa.Function) {
 		}
 	}
 	r.floor(rule, "installs into children/alias tables in Resolve", n, 2)
+}
+
+// knownNot: the blocks of f on whose entry the string value v is known to
+// differ from k. Forward must-analysis: an edge taken when v == k2 (k2 != k)
+// or when v != k establishes the fact; a join keeps it only if every
+// predecessor edge has it; it starts unknown where v is defined.
+func knownNot(f *ssa.Function, v ssa.Value, k string) map[*ssa.BasicBlock]bool {
+	def := f.Blocks[0]
+	if in, ok := v.(ssa.Instruction); ok && in.Block() != nil {
+		def = in.Block()
+	}
+	// edgeFact[b][i]: fact on the i-th out-edge of b given the fact at b's entry
+	edge := func(b *ssa.BasicBlock, i int, entry bool) bool {
+		ifi, ok := b.Instrs[len(b.Instrs)-1].(*ssa.If)
+		if !ok {
+			return entry
+		}
+		bo, ok := ifi.Cond.(*ssa.BinOp)
+		if !ok || (bo.Op != token.EQL && bo.Op != token.NEQ) {
+			return entry
+		}
+		var c *ssa.Const
+		switch {
+		case bo.X == v:
+			c, _ = bo.Y.(*ssa.Const)
+		case bo.Y == v:
+			c, _ = bo.X.(*ssa.Const)
+		}
+		if c == nil || c.Value == nil || c.Value.Kind() != constant.String {
+			return entry
+		}
+		s := constant.StringVal(c.Value)
+		eqEdge := 0
+		if bo.Op == token.NEQ {
+			eqEdge = 1
+		}
+		if i == eqEdge { // v == s here
+			return s != k
+		}
+		// v != s here
+		if s == k {
+			return true
+		}
+		return entry
+	}
+	in := map[*ssa.BasicBlock]bool{}
+	// optimistic start (true everywhere dominated by def), iterate down
+	for _, b := range f.Blocks {
+		in[b] = def.Dominates(b) && b != def
+	}
+	for changed := true; changed; {
+		changed = false
+		for _, b := range f.Blocks {
+			if !in[b] {
+				continue
+			}
+			all := len(b.Preds) > 0
+			for _, pr := range b.Preds {
+				idx := 0
+				for i, s := range pr.Succs {
+					if s == b {
+						idx = i
+					}
+				}
+				entry := in[pr] && pr != def
+				if pr == def {
+					entry = false
+				}
+				if !edge(pr, idx, entry) {
+					all = false
+				}
+			}
+			if !all {
+				in[b] = false
+				changed = true
+			}
+		}
+	}
+	return in
 }
